@@ -7,6 +7,11 @@ package refl
 
 import (
 	"fmt"
+	"google.golang.org/protobuf/reflect/protoregistry"
+	"google.golang.org/protobuf/types/dynamicpb"
+	"google.golang.org/protobuf/types/known/durationpb"
+	"google.golang.org/protobuf/types/known/emptypb"
+	"sort"
 
 	"google.golang.org/protobuf/proto"
 	"google.golang.org/protobuf/reflect/protoreflect"
@@ -272,6 +277,25 @@ func opsFor(fds []protoreflect.FieldDescriptor, withUnknown bool, mergeOps bool)
 					s.real.Set(rfd, inv)
 				}()
 			})
+			add(n+".Set(message of another type)", func(s *sut) {
+				// "Set panics if the value's type does not match the field": a message of
+				// another descriptor - preferably one that shares the short name - must
+				// never be stored
+				rfd := realFD(s, fd)
+				other := sameShortName(fd.Message())
+				refused := func() (refused bool) {
+					defer func() {
+						if recover() != nil {
+							refused = true
+						}
+					}()
+					s.real.Set(rfd, protoreflect.ValueOfMessage(dynamicpb.NewMessage(other)))
+					return false
+				}()
+				if !refused {
+					panic(fmt.Sprintf("contract violated: Set(%s) accepted a message of type %s", fd.FullName(), other.FullName()))
+				}
+			})
 			if fd.IsExtension() {
 				add(n+".SetExtension(typed nil)", func(s *sut) {
 					// proto.SetExtension with an invalid (typed nil) message clears the extension
@@ -393,4 +417,39 @@ func populate(r protoreflect.Message, m *refmsg.Msg, fd protoreflect.FieldDescri
 		r.Set(rfd, cp(v))
 		m.Set(fd, v)
 	}
+}
+
+// sameShortName finds a registered message type with the same short name as md
+// but another full name (else some unrelated message type).
+func sameShortName(md protoreflect.MessageDescriptor) protoreflect.MessageDescriptor {
+	var found protoreflect.MessageDescriptor
+	var walk func(ms protoreflect.MessageDescriptors) bool
+	walk = func(ms protoreflect.MessageDescriptors) bool {
+		for i := 0; i < ms.Len(); i++ {
+			m := ms.Get(i)
+			if m.Name() == md.Name() && m.FullName() != md.FullName() && !m.IsMapEntry() {
+				found = m
+				return false
+			}
+			if !walk(m.Messages()) {
+				return false
+			}
+		}
+		return true
+	}
+	var files []protoreflect.FileDescriptor
+	protoregistry.GlobalFiles.RangeFiles(func(fd protoreflect.FileDescriptor) bool { files = append(files, fd); return true })
+	sort.Slice(files, func(i, j int) bool { return files[i].Path() < files[j].Path() })
+	for _, fd := range files {
+		if !walk(fd.Messages()) {
+			break
+		}
+	}
+	if found == nil {
+		found = (&durationpb.Duration{}).ProtoReflect().Descriptor()
+		if found.FullName() == md.FullName() {
+			found = (&emptypb.Empty{}).ProtoReflect().Descriptor()
+		}
+	}
+	return found
 }
